@@ -104,7 +104,12 @@ int
 __wrap_close(int fd)
 {
 
-	if (fd >= 20 && fd < NFD && fd_open[fd]) {
+	/* descriptors 0..NFD-1 are scripted ones: never touch the real descriptor of that number (0 is our stdin) */
+	if (fd >= 0 && fd < NFD) {
+		if (!fd_open[fd]) {
+			errno = EBADF;
+			return (-1);
+		}
 		fd_open[fd] = 0;
 		conn_outcome[fd] = 0;
 		conntracelen += (size_t)sprintf(conntrace + conntracelen, "close%d,", fd);
@@ -333,6 +338,8 @@ reset_all(void)
 {
 	int fd;
 
+	if (C.cookie) network_connect_cancel(C.cookie);
+	C.cookie = NULL;
 	for (fd = 0; fd < NFD; fd++) {
 		if (R[fd].cookie) network_read_cancel(R[fd].cookie);
 		if (W[fd].cookie) network_write_cancel(W[fd].cookie);
@@ -348,7 +355,6 @@ reset_all(void)
 		conn_outcome[fd] = 0;
 		fd_open[fd] = 0;
 	}
-	if (C.cookie) network_connect_cancel(C.cookie);
 	free_sas();
 	memset(&C, 0, sizeof(C));
 	nextfd = 20;
@@ -476,6 +482,11 @@ main(void)
 				}
 				printf(C.cookie ? "ok" : "fail");
 			}
+		} else if (hc_is("fdbase", 1)) {
+			/* the next socket() returns this descriptor (0 = a daemon that has closed its stdin) */
+			nextfd = atoi(hc_tok[1]);
+			if (nextfd < 0 || nextfd >= NFD) nextfd = 20;
+			printf("ok");
 		} else if (hc_is("cancelc", 0)) {
 			if (C.cookie) { network_connect_cancel(C.cookie); C.cookie = NULL; printf("ok"); }
 			else printf("none");
